@@ -8,7 +8,7 @@ for a in sys.argv[1:]:
     if a.startswith("--props"):
         props_override = a.split("=", 1)[1].split(",")
 if not names:
-    names = sorted(os.listdir(f"{ROOT}/seeded"))
+    names = sorted(x for x in os.listdir(f"{ROOT}/seeded") if os.path.isdir(f"{ROOT}/seeded/{x}"))
 for n in names:
     d = f"{ROOT}/seeded/{n}"
     meta = json.load(open(f"{d}/meta.json"))
